@@ -43,6 +43,8 @@ type Engine struct {
 	callees  map[string]bool
 	nlaUF    bool
 	subFuns  map[string]bool
+	subCodes map[string]int
+	useAllocID bool
 	rel      *relRun
 	lastLoad map[ssa.Value]*Loc
 	lastRet  []ssa.Value
@@ -127,7 +129,7 @@ func (e *Engine) wf(t types.Type, l []Term, next Term, cs *[]Term) {
 			Implies(Eq(base, IntLit(0)), And(Eq(cp, IntLit(0)), Eq(off, IntLit(0)))))
 	case *types.Pointer:
 		// allocated objects are below the allocation counter; sub-object references are negative
-		*cs = append(*cs, Lt(l[0], next))
+		*cs = append(*cs, Lt(e.allocID(l[0]), next))
 	case *types.Map, *types.Chan:
 		*cs = append(*cs, Le(IntLit(0), l[0]), Lt(l[0], next))
 	case *types.Struct:
